@@ -691,6 +691,38 @@ def run(ctx):
                       '%s::%s:string-built-with-its-length#%d' % ((g.record or '').split('<')[0].rsplit('::', 1)[-1], g.short, ncv),
                       'a cached value is rebuilt from a character pointer without its length: it is cut at the first NUL byte (the two back-ends then disagree)', g.loc(i))
     ctx.require(ncv >= 1 or ctx.violations, 'C07.R10: copy_traits string conversions not found')
-    ctx.floor(R10, 17)
+    # memory pressure of the shared-memory back-end is judged by the largest free chunk: shmem_control's accessors each forward to the buddy allocator primitive of their own
+    # meaning (the sum of the free fragments says nothing about whether the next value fits), and not_enough_memory() compares max_available() with size()
+    SHC = 'cppcms::impl::shmem_control'
+    FWD = {'available': 'total_free_memory', 'max_available': 'max_free_chunk', 'malloc': 'malloc', 'free': 'free'}
+    shf = dict((g.short, g) for g in P.fns.values() if g.record == SHC and g.short in FWD and g.body is not None)
+    ctx.require(set(shf) == set(FWD) or ctx.violations, 'C07.R10: shmem_control accessors not found (%s)' % sorted(shf))
+    for nm, g in sorted(shf.items()):
+        cs = [q.short_of(g.callee(i) or '') for i in g.calls() if (g.N(i).get('rec') or '').endswith('buddy_allocator')]
+        ctx.check(cs == [FWD[nm]], R10, 'shmem_control::%s:forwards-to-%s' % (nm, FWD[nm]), 'the accessor forwards to %s' % (cs,), g.where)
+    nem = [g for g in P.fns.values() if g.short == 'not_enough_memory' and (g.record or '').endswith('process_settings') and g.body is not None]
+    ctx.require(len(nem) == 1 or ctx.violations, 'C07.R10: process_settings::not_enough_memory not found')
+    for g in nem:
+        cs = sorted(q.short_of(g.callee(i) or '') for i in g.calls() if (g.N(i).get('rec') or '') == SHC)
+        ctx.check(cs == ['max_available', 'size'], R10, 'process_settings::not_enough_memory:largest-chunk-against-size', 'memory pressure is judged from %s' % (cs,), g.where)
+    # the cache pool is configured from option paths the reference configuration (src/config.js) knows: a misspelt path silently reads the default, e.g. the
+    # guard that refuses a per-process cache for a pre-forking service would never trip
+    PCP = model.Program(build.extract([REPO + '/src/cache_pool.cpp'], include_re='^/repo/src/cache_pool\\.cpp'))
+    docs, okd = q.documented_config_keys(REPO + '/src/config.js')
+    ctx.require(okd and len(docs) >= 60 and 'cache.backend' in docs, 'C07.R10: src/config.js could not be read as the list of options (%d paths)' % len(docs))
+    cpc = [g for g in PCP.fns.values() if g.kind == 'ctor' and (g.record or '').endswith('cache_pool') and g.body is not None and len(g.params) == 1]
+    ctx.require(len(cpc) == 1, 'C07.R10: cache_pool::cache_pool(json::value const &) not found')
+    nk_ = 0
+    for g in cpc:
+        for i in g.calls():
+            if q.short_of(g.callee(i) or '') not in ('get', 'find', 'at') or not (g.N(i).get('rec') or '').endswith('json::value') or not g.args(i):
+                continue
+            lit = [g.N(j).get('s') for j in g.walk(g.args(i)[0]) if g.N(j)['k'] == 'StringLiteral']
+            if len(lit) != 1:
+                continue
+            nk_ += 1
+            ctx.check(lit[0] in docs, R10, 'cache_pool:option-%s:is-a-documented-path' % lit[0], 'the option path %r is not one the reference configuration src/config.js knows: the lookup always yields its default' % lit[0], g.loc(i))
+    ctx.require(nk_ >= 6 or ctx.violations, 'C07.R10: only %d option lookups found in cache_pool' % nk_)
+    ctx.floor(R10, 28)
 
     ctx.floor(R6, 12)
